@@ -434,6 +434,94 @@ def classify(model, graph=None):
         cell.reason = "%s %s and %s reads it: what a call does depends on the calls made before in this process" % (
             writer_funcs[0].qualname.replace("cutplace.", ""), cell.writers[0][2],
             sorted({f.qualname.replace("cutplace.", "") for f, _ in content_readers})[0])
+    return cells + observer_cells(model)
+
+
+# classes whose instances are validators without a life cycle: what a method answers is a function of the declaration
+# (constructor arguments) and the arguments of the call, never of earlier calls
+OBSERVER_ROOTS = ("cutplace.ranges.Range", "cutplace.fields.AbstractFieldFormat", "cutplace.sql.AnsiSqlDialect")
+
+
+def _self_attribute_writes(func_node):
+    """(attribute, node) for assignments / mutating calls on attributes of ``self`` in one method."""
+    found = []
+    for node in walk_own(func_node):
+        targets = []
+        if isinstance(node, ast.Assign):
+            targets = node.targets
+        elif isinstance(node, (ast.AugAssign, ast.AnnAssign)):
+            targets = [node.target]
+        elif isinstance(node, ast.Delete):
+            targets = node.targets
+        for target in targets:
+            elements = target.elts if isinstance(target, (ast.Tuple, ast.List)) else [target]
+            for element in elements:
+                base = element
+                while isinstance(base, ast.Subscript):
+                    base = base.value
+                if isinstance(base, ast.Attribute) and isinstance(base.value, ast.Name) and base.value.id == "self":
+                    found.append((base.attr, node))
+        if isinstance(node, ast.Call) and isinstance(node.func, ast.Attribute) and node.func.attr in MUTATING_METHODS:
+            base = node.func.value
+            if isinstance(base, ast.Attribute) and isinstance(base.value, ast.Name) and base.value.id == "self":
+                found.append((base.attr, node))
+    return found
+
+
+def observer_cells(model):
+    """
+    Instance attributes of observer classes that a method other than the constructor (or a property setter) writes.
+    kind "lazy": written only under ``if self.x is None`` from attributes nobody writes after construction (a per-object
+    memo); "write-only": never read; otherwise "shared": the answer of a call depends on earlier calls on the object.
+    """
+    cells = []
+    seen_classes = []
+    for root in OBSERVER_ROOTS:
+        if root not in model.classes:
+            continue
+        for cls in [model.classes[root]] + list(model.subclasses(model.classes[root])):
+            if cls not in seen_classes and cls.module.name.startswith(model.PACKAGE):
+                seen_classes.append(cls)
+    for cls in seen_classes:
+        setters = {setter for _, setter in cls.properties.values() if setter is not None}
+        written_late = {}
+        for name, method in cls.methods.items():
+            if name == "__init__" or method in setters:
+                continue
+            for attribute, node in _self_attribute_writes(method.node):
+                written_late.setdefault(attribute, []).append((method, node))
+        family = [cls] + [c for c in model.classes.values() if cls in getattr(c, "mro", [])] + list(model.subclasses(cls))
+        for attribute, writes in sorted(written_late.items()):
+            cell = Cell(cls.module, "%s.%s" % (cls.name, attribute), writes[0][1])
+            cell.writers = [(method, node, "assigns it outside the constructor") for method, node in writes]
+            for member in family:
+                for method in member.methods.values():
+                    for node in walk_own(method.node):
+                        if isinstance(node, ast.Attribute) and node.attr == attribute and isinstance(node.ctx, ast.Load) \
+                                and isinstance(node.value, ast.Name) and node.value.id == "self":
+                            cell.readers.append((method, node))
+            if not cell.readers:
+                cell.kind, cell.reason = "write-only", "no method reads it"
+            else:
+                lazy = True
+                for method, node in writes:
+                    guard = model.parents.get(id(node))
+                    guarded = isinstance(guard, ast.If) and ast.unparse(guard.test) in ("self.%s is None" % attribute, "not self.%s" % attribute) \
+                        and node in guard.body
+                    inputs = {n.attr for n in ast.walk(node.value if isinstance(node, ast.Assign) else node) if isinstance(n, ast.Attribute)
+                              and isinstance(n.value, ast.Name) and n.value.id == "self"}
+                    arguments = {a.arg for a in method.node.args.args[1:]}
+                    uses_arguments = any(isinstance(n, ast.Name) and n.id in arguments for n in ast.walk(node.value if isinstance(node, ast.Assign) else node))
+                    if not guarded or uses_arguments or (inputs - {attribute}) & set(written_late):
+                        lazy = False
+                if lazy:
+                    cell.kind, cell.reason = "lazy", "computed once per object from what the constructor stored"
+                else:
+                    cell.kind = "shared"
+                    cell.reason = "%s %s and %s reads it: what the object answers depends on the calls made on it before" % (
+                        writes[0][0].qualname.replace("cutplace.", ""), "assigns it outside the constructor",
+                        sorted({f.qualname.replace("cutplace.", "") for f, _ in cell.readers})[0])
+            cells.append(cell)
     return cells
 
 
